@@ -43,6 +43,15 @@ fn run(r: &mut Run) -> Result<(), MachineryError> {
         cx.set_input(&text);
         check_text_widths(&text, &gaps, &[63, 64, 65, 127, 128, 129, 130, 200, 257, 300, 1000], 3, cx);
     })?;
+    // Options that carry indents: the cells are the lines of wrap(text, options.width(column width)),
+    // indents included
+    let space = Space { name: "C20/options-with-indents".into(), menu: menu(&small), max_len: t.pick(4, 6), desc: "texts x columns 1..=4 x total widths 0..=12 x gap triples x break_words x algorithms x Options with indent pairs {(\"* \",\"  \"), (\"\",\"> \")}".into() };
+    r.space(space, |seq, cx| {
+        let text = build(seq, &small);
+        cx.set_input(&text);
+        let totals: Vec<usize> = (0..=12).collect();
+        check_text_full(&text, &gaps, &totals, 4, &[("* ", "  "), ("", "> ")], cx);
+    })?;
     // the escape grammar's byte ranges (text alphabets only carry sequences ending in 'm')
     r.range("C20/escape-grammar-scan", "for every byte b in 0x21..=0x7F the texts \"ESC[1bX12 345\" and \"ESC]8bX BEL 12 345\" through the same layout oracle (b = space excluded: the separators are specified to split at spaces, also inside a sequence)", 95 * 2, move |i, cx| {
         let b = (0x21 + (i % 95)) as u8 as char;
@@ -59,7 +68,11 @@ fn check_text(text: &str, gaps: &[(&'static str, &'static str, &'static str)], c
 }
 
 fn check_text_widths(text: &str, gaps: &[(&'static str, &'static str, &'static str)], totals: &[usize], max_cols: usize, cx: &mut Cx) {
-    {
+    check_text_full(text, gaps, totals, max_cols, &[("", "")], cx)
+}
+
+fn check_text_full(text: &str, gaps: &[(&'static str, &'static str, &'static str)], totals: &[usize], max_cols: usize, indents: &[(&'static str, &'static str)], cx: &mut Cx) {
+    for &(ii, si) in indents {
         let gaps = gaps.iter().copied();
 
         for cols in 1..=max_cols {
@@ -68,9 +81,9 @@ fn check_text_widths(text: &str, gaps: &[(&'static str, &'static str, &'static s
                     for bw in [true, false] {
                         for alg in algs_default() {
                             cx.eval();
-                            let cfg = Cfg { width: total, sep: *seps().last().unwrap(), alg, spl: Spl::Hyphen, bw, ii: "", si: "", crlf: false };
+                            let cfg = Cfg { width: total, sep: *seps().last().unwrap(), alg, spl: Spl::Hyphen, bw, ii, si, crlf: false };
                             let o = cfg.opts();
-                            let d = || format!("columns={} total_width={} gaps=({:?},{:?},{:?}) break_words={} algorithm={:?}", cols, total, l, m, rg, bw, alg);
+                            let d = || format!("columns={} total_width={} gaps=({:?},{:?},{:?}) break_words={} algorithm={:?} initial_indent={:?} subsequent_indent={:?}", cols, total, l, m, rg, bw, alg, ii, si);
                             let rows = match cx.guard_quiet(|| wrap_columns(text, cols, o.clone(), l, m, rg)) {
                                 Some(x) => x,
                                 None => {
